@@ -89,3 +89,135 @@ def msm_cons(ident):
 
 def msm_level(ident):
     return int(ident[3])
+
+
+# ---------------------------------------------------------------------------
+# roster of identities defined by RTCM 10403.3 (+ amendments) / IGS SSR v1 that pyrtcm implements
+def roster():
+    ids = [str(n) for n in list(range(1001, 1018)) + list(range(1019, 1028)) + list(range(1029, 1036)) + [1037, 1038, 1039, 1041, 1042, 1044, 1045, 1046] + list(range(1057, 1069)) + [1230] + list(range(1300, 1306))]
+    ids += msm_ids()
+    for base in (20, 40, 60, 80, 100, 120):  # GPS GLONASS Galileo QZSS BeiDou SBAS
+        ids += [f"4076_{base + k:03d}" for k in range(1, 8)]
+    ids.append("4076_201")
+    return ids
+
+
+# ---------------------------------------------------------------------------
+# standard message lengths in bits as a function of the repeat counts (v = decoded values by attribute name)
+def _n(v, name):
+    return v.get(name, 0)
+
+
+def _sum(v, prefix):
+    """sum of all attributes named prefix_NN (one nesting level)"""
+    return sum(val for k, val in v.items() if k.startswith(prefix + "_") and k[len(prefix) + 1 :].isdigit())
+
+
+def _igs_nested(per_sat, per_bias):
+    return lambda v: sum(per_sat + per_bias * v[f"IDF023_{i:02d}"] for i in range(1, v["IDF010"] + 1))
+
+
+def _vtec(v):
+    total = 83
+    for i in range(1, v["IDF035"] + 2):
+        N, M = v[f"IDF037_{i:02d}"] + 1, v[f"IDF038_{i:02d}"] + 1
+        nc = (N + 1) * (N + 2) // 2 - ((N - M) * (N - M + 1)) // 2
+        ns = nc - (N + 1)
+        total += 16 + 16 * (nc + ns)
+    return total
+
+
+def _msm(level):
+    return lambda v: MSM_HEADER_BITS + v["NSat"] * v["NSig"] + MSM_SAT_BITS[level] * v["NSat"] + MSM_CELL_BITS[level] * v["NCell"]
+
+
+LENGTH = {
+    "1001": lambda v: 64 + 58 * v["DF006"],
+    "1002": lambda v: 64 + 74 * v["DF006"],
+    "1003": lambda v: 64 + 101 * v["DF006"],
+    "1004": lambda v: 64 + 125 * v["DF006"],
+    "1005": lambda v: 152,
+    "1006": lambda v: 168,
+    "1007": lambda v: 40 + 8 * v["DF029"],
+    "1008": lambda v: 48 + 8 * (v["DF029"] + v["DF032"]),
+    "1009": lambda v: 61 + 64 * v["DF035"],
+    "1010": lambda v: 61 + 79 * v["DF035"],
+    "1011": lambda v: 61 + 107 * v["DF035"],
+    "1012": lambda v: 61 + 130 * v["DF035"],
+    "1013": lambda v: 70 + 29 * v["DF053"],
+    "1014": lambda v: 117,
+    "1015": lambda v: 76 + 28 * v["DF067"],
+    "1016": lambda v: 76 + 36 * v["DF067"],
+    "1017": lambda v: 76 + 53 * v["DF067"],
+    "1019": lambda v: 488,
+    "1020": lambda v: 360,
+    "1021": lambda v: 412 + 8 * (v["DF143"] + v["DF145"]),
+    "1022": lambda v: 517 + 8 * (v["DF143"] + v["DF145"]),
+    "1023": lambda v: 578,
+    "1024": lambda v: 590,
+    "1025": lambda v: 196,
+    "1026": lambda v: 234,
+    "1027": lambda v: 258,
+    "1029": lambda v: 72 + 8 * v["DF139"],
+    "1030": lambda v: 56 + 49 * v["DF006"],
+    "1031": lambda v: 53 + 49 * v["DF035"],
+    "1032": lambda v: 156,
+    "1033": lambda v: 72 + 8 * (v["DF029"] + v["DF032"] + v["DF227"] + v["DF229"] + v["DF231"]),
+    "1034": lambda v: 49 + 66 * v["DF006"],
+    "1035": lambda v: 46 + 66 * v["DF035"],
+    "1037": lambda v: 73 + 28 * v["DF234"],
+    "1038": lambda v: 73 + 36 * v["DF234"],
+    "1039": lambda v: 73 + 53 * v["DF234"],
+    "1041": lambda v: 482,
+    "1042": lambda v: 511,
+    "1044": lambda v: 485,
+    "1045": lambda v: 496,
+    "1046": lambda v: 504,
+    "1057": lambda v: 68 + 135 * v["DF387"],
+    "1058": lambda v: 67 + 76 * v["DF387"],
+    "1059": lambda v: 67 + 11 * v["DF387"] + 19 * _sum(v, "DF379"),
+    "1060": lambda v: 68 + 205 * v["DF387"],
+    "1061": lambda v: 67 + 12 * v["DF387"],
+    "1062": lambda v: 67 + 28 * v["DF387"],
+    "1063": lambda v: 65 + 134 * v["DF387"],
+    "1064": lambda v: 64 + 75 * v["DF387"],
+    "1065": lambda v: 64 + 10 * v["DF387"] + 19 * _sum(v, "DF379"),
+    "1066": lambda v: 65 + 204 * v["DF387"],
+    "1067": lambda v: 64 + 11 * v["DF387"],
+    "1068": lambda v: 64 + 27 * v["DF387"],
+    "1230": lambda v: 32 + 16 * sum(v[f"DF422_{k}"] for k in (1, 2, 3, 4)),
+    "1300": lambda v: 33 + 8 * v["DF562"],
+    "1301": lambda v: 362 + 8 * (v["DF143"] + v["DF145"]),
+    "1302": lambda v: 26 + 8 * v["DF565"] + 5 * v["DF568"] + 8 * _sum(v, "DF569"),
+    "1303": lambda v: 56 + 49 * v["DF572"],
+    "1304": lambda v: 56 + 49 * v["DF574"],
+    "1305": lambda v: 56 + 47 * v["DF576"],
+    "4076_201": _vtec,
+}
+for _c in range(7):
+    for _l in range(1, 8):
+        LENGTH[str(1070 + 10 * _c + _l)] = _msm(_l)
+for _base in (20, 40, 60, 80, 100, 120):
+    LENGTH[f"4076_{_base + 1:03d}"] = lambda v: 79 + 135 * v["IDF010"]
+    LENGTH[f"4076_{_base + 2:03d}"] = lambda v: 78 + 76 * v["IDF010"]
+    LENGTH[f"4076_{_base + 3:03d}"] = lambda v: 79 + 205 * v["IDF010"]
+    LENGTH[f"4076_{_base + 4:03d}"] = lambda v: 78 + 28 * v["IDF010"]
+    LENGTH[f"4076_{_base + 5:03d}"] = lambda v: 78 + 11 * v["IDF010"] + 19 * _sum(v, "IDF023")
+    LENGTH[f"4076_{_base + 6:03d}"] = lambda v: 80 + 28 * v["IDF010"] + 32 * _sum(v, "IDF023")
+    LENGTH[f"4076_{_base + 7:03d}"] = lambda v: 78 + 12 * v["IDF010"]
+
+# ---------------------------------------------------------------------------
+# sibling relations
+# combined orbit+clock = orbit block ++ clock block without the repeated satellite ID
+#   (combined, orbit, clock, satellite-ID bits, orbit block bits, clock block bits)
+SSR_TRIPLES = [("1060", "1057", "1058", 6, 135, 76), ("1066", "1063", "1064", 5, 134, 75)]
+for _base in (20, 40, 60, 80, 100, 120):
+    SSR_TRIPLES.append((f"4076_{_base + 3:03d}", f"4076_{_base + 1:03d}", f"4076_{_base + 2:03d}", 6, 135, 76))
+
+# extended observables contain the basic ones: per-satellite field widths, extension fields in parentheses (negative)
+EXTENDED = {
+    ("1002", "1001"): [6, 1, 24, 20, 7, -8, -8],
+    ("1004", "1003"): [6, 1, 24, 20, 7, -8, -8, 2, 14, 20, 7, -8],
+    ("1010", "1009"): [6, 1, 5, 25, 20, 7, -7, -8],
+    ("1012", "1011"): [6, 1, 5, 25, 20, 7, -7, -8, 2, 14, 20, 7, -8],
+}
